@@ -254,6 +254,17 @@ func runC16Scenario(rec *Recorder, r *rand.Rand, parallel bool, nfMax int, varia
 			rf.Spec.CfgMap = m
 		}
 		rf.Theta = r.Intn(60)
+		if rf.Spec.Kind == "hwmon" && rf.Spec.CfgMap == nil && r.Intn(3) == 0 {
+			// a register that rounds up, or a device with a range of 0..100: request values and device values differ
+			rf.QMode = []string{"ceil", "scale"}[r.Intn(2)]
+			if rf.QMode == "scale" {
+				m := map[int]int{}
+				for v := 0; v <= 255; v++ {
+					m[v] = v * 100 / 255
+				}
+				rf.Spec.CfgMap = m
+			}
+		}
 		rf.Pwm0 = r.Intn(256)
 		rf.Mode0 = 2
 		rf.StartDelay = time.Duration(r.Intn(2500)) * time.Millisecond
